@@ -10,15 +10,16 @@
 (***************************************************************************)
 EXTENDS Integers, Sequences, TLC
 
-VARIABLES on, T, fb, role, inflight, last
-tvars == <<on, T, fb, role, inflight, last>>
+VARIABLES on, T, fb, role, inflight, last,
+    held      \* outcomes of the requests whose inner call is still pending (oldest first): they stay admitted
+tvars == <<on, T, fb, role, inflight, last, held>>
 
 Outcomes == {"ok", "err", "pok", "perr"}
 
 Reset(ev) ==
     /\ ev.e = "reset"
     /\ on' = TRUE /\ T' = ev.T /\ fb' = ev.fallback /\ role' = ev.role /\ inflight' = 0
-    /\ last' = [called |-> 0, result |-> "none"]
+    /\ last' = [called |-> 0, result |-> "none"] /\ held' = <<>>
 
 \* leak: only for a dropped future - whether the admission is still held afterwards
 Req(ev, leak) ==
@@ -32,9 +33,29 @@ Req(ev, leak) ==
             /\ inflight' = IF leak THEN inflight + 1 ELSE inflight
        ELSE /\ last' = [called |-> 1, result |-> IF ev.outcome \in {"ok", "pok"} THEN "ok" ELSE "err"]
             /\ inflight' = inflight /\ ~leak            \* released, with a response or with an error
+    /\ UNCHANGED <<on, T, fb, role, held>>
+
+\* a request whose inner future is pending is polled once and left in flight: it keeps its admission, so a
+\* request arriving meanwhile is decided against it
+Hold(ev) ==
+    /\ ev.e = "hold" /\ on /\ ev.outcome \in {"pok", "perr"}
+    /\ IF inflight + 1 <= T
+       THEN /\ last' = [called |-> 1, result |-> "pending"]
+            /\ inflight' = inflight + 1 /\ held' = Append(held, ev.outcome)
+       ELSE /\ last' = [called |-> 0, result |-> IF fb THEN "fallback" ELSE "err"]
+            /\ UNCHANGED <<inflight, held>>
     /\ UNCHANGED <<on, T, fb, role>>
 
-TowerInit == on = FALSE /\ T = 1 /\ fb = FALSE /\ role = "server" /\ inflight = 0 /\ last = [called |-> 0, result |-> "none"]
+\* the oldest pending request is polled to completion: response or error, admission released
+Resume(ev) ==
+    /\ ev.e = "resume" /\ on
+    /\ IF held # <<>>
+       THEN /\ last' = [called |-> 0, result |-> IF Head(held) = "pok" THEN "ok" ELSE "err"]
+            /\ inflight' = inflight - 1 /\ held' = Tail(held)
+       ELSE /\ last' = [called |-> 0, result |-> "nothing"] /\ UNCHANGED <<inflight, held>>
+    /\ UNCHANGED <<on, T, fb, role>>
+
+TowerInit == on = FALSE /\ T = 1 /\ fb = FALSE /\ role = "server" /\ inflight = 0 /\ last = [called |-> 0, result |-> "none"] /\ held = <<>>
 
 \* the inner service is called exactly once iff the request was admitted
 CalledIffAdmitted == last.called \in {0, 1} /\ (last.result \in {"fallback"} => last.called = 0)
